@@ -777,7 +777,7 @@ def model_verdict(ans):
     ne = None if kv["nonexh"] == "-" else re.sub(r"#(\d+)", lambda m: VNAMES[int(m.group(1))], kv["nonexh"].replace("~", " "))
     return {"nonexh": ne, "useless": kv["useless"] == "1", "err": kv["err"] == "1",
             "panic_norm": kv["panic"] == "1", "typed": kv["typed"] == "1", "inh": kv.get("inh") == "1", "mono": kv.get("mono") == "1",
-            "hyp": kv.get("hyp") == "1", "swf": kv.get("swf") == "1", "abs": absm, "scope": kv.get("scope", "-")}
+            "shape": kv.get("shape") == "1", "hyp": kv.get("hyp") == "1", "swf": kv.get("swf") == "1", "abs": absm, "scope": kv.get("scope", "-")}
 
 
 def arity_overflow(classes, p, t):
@@ -825,6 +825,8 @@ def classify(ctx, case, ians, mans, stats):
         return (f"inhabitedness certificate of the model (inh={mv['inh']}) disagrees with the generator's fixpoint ({py_inh})", True, None)
     if not py_inh:
         stats["uninhabited"] = stats.get("uninhabited", 0) + 1
+    if not mv["shape"]:
+        return ("protocol: an object pattern with a different number of field names and sub-patterns (`shape` fails)", True, None)
     if not mv["hyp"]:
         return ("the type table sent to the model violates CxOk / SigNodup (cxOkCheck && nodupCheck failed): the theorems do not apply to this case", True, None)
     # the domain of the Lean source semantics (`swf`) against the oracle's own well-formedness:
@@ -1515,6 +1517,7 @@ def run(ctx):
 
 
 PENDING = [
+    "nothing of the pattern language itself: all abstract patterns, normalisation on swf, and rejection outside swf are proved (source_pattern_dichotomy); the items below are validated by correspondence / oracle only",
     "the glue around the analysis (which expression contexts reach check_match / check_declaration_statement / check_if_else in which inference mode) is covered by the deterministic family of 40 expression contexts, not by a Lean model of the bidirectional checker",
     "the run-time meaning of `smatch` (that the lowered match really tests what the source-level semantics says) belongs to C01/C03 (`lowerMatch_correct`); the C07 check itself does not execute programs",
     "the diagnostics other than NonExhaustiveMatch / UselessPattern are compared as one flag (`err`: some other diagnostic was reported), not kind by kind",
